@@ -186,7 +186,7 @@ def run(tier, r):
     explored = 0
     for i in range(ncases):
         case = gen(r)
-        v, info = check_case(case)
+        v, info = oc.safe(check_case, PROP)(case)
         explored += 1
         vs += v
         oc.bump(stats, "dim%d" % case["n"])
